@@ -9,6 +9,8 @@ package serverConfig
 import (
 	"crypto/tls"
 	"net/http"
+
+	"github.com/rbell/toolchest/server/httpMiddleware"
 )
 
 type HttpsServerConfigBuilder struct {
@@ -19,6 +21,11 @@ func BuildHttpsServiceConfig() *HttpsServerConfigBuilder {
 	return &HttpsServerConfigBuilder{cfg: &HttpsServerConfig{
 		HttpServerConfig: BuildHttpServiceConfig().build(),
 	}}
+}
+
+func (b *HttpsServerConfigBuilder) UsingMiddleWare(middleware httpMiddleware.HttpHandlerMiddleware) *HttpsServerConfigBuilder {
+	b.cfg.SetMiddleware(middleware)
+	return b
 }
 
 func (b *HttpsServerConfigBuilder) WithPort(port string) *HttpsServerConfigBuilder {
